@@ -18,6 +18,7 @@ import (
 	"os"
 	"path/filepath"
 	"sort"
+	"strconv"
 	"strings"
 )
 
@@ -193,6 +194,142 @@ func collectsAndSorts(fset *token.FileSet, r *ast.RangeStmt, fn *ast.BlockStmt) 
 }
 
 // boundedIndex: the index expression x = S[i] lies in the body of a loop that keeps i within [0, len(S))
+// lengthGuarded reports whether the index expression s[k] (k an integer literal) or the slice expression s[e:] at [pos]
+// is protected by a test of len(s) earlier in the function: a guard `if len(s) < e || ... { return / continue / panic }`
+// (or <=, != n, == 0) that ends before the use, in a block that encloses it, or an enclosing `if len(s) > e && ...`
+// whose body holds the use - with s not assigned in between. [need] is the least length the use requires: an integer,
+// or, for s[e:], the text of e.
+func lengthGuarded(fset *token.FileSet, fn *ast.BlockStmt, operandX ast.Expr, pos, end token.Pos, needInt int, needTxt string) bool {
+	st := exprText(fset, operandX)
+	lenOf := "len(" + st + ")"
+	intOf := func(e ast.Expr) (int, bool) {
+		if l, ok := e.(*ast.BasicLit); ok && l.Kind == token.INT {
+			n, err := strconv.Atoi(l.Value)
+			return n, err == nil
+		}
+		return 0, false
+	}
+	// does "NOT (len(s) op y)" (negated = true) or "len(s) op y" (negated = false) give len(s) >= need ?
+	implies := func(op token.Token, y ast.Expr, negated bool) bool {
+		if negated {
+			switch op {
+			case token.LSS:
+				op = token.GEQ
+			case token.LEQ:
+				op = token.GTR
+			case token.NEQ:
+				op = token.EQL
+			case token.EQL:
+				op = token.NEQ
+			default:
+				return false
+			}
+		}
+		n, isInt := intOf(y)
+		yt := exprText(fset, y)
+		switch op {
+		case token.GEQ:
+			return needTxt != "" && yt == needTxt || needTxt == "" && isInt && n >= needInt
+		case token.GTR:
+			return needTxt != "" && yt == needTxt || needTxt == "" && isInt && n+1 >= needInt
+		case token.EQL:
+			return needTxt == "" && isInt && n >= needInt
+		case token.NEQ:
+			return needTxt == "" && isInt && n == 0 && needInt <= 1
+		}
+		return false
+	}
+	split := func(e ast.Expr, op token.Token) []ast.Expr {
+		var out []ast.Expr
+		var rec func(e ast.Expr)
+		rec = func(e ast.Expr) {
+			if p, ok := e.(*ast.ParenExpr); ok {
+				rec(p.X)
+				return
+			}
+			if b, ok := e.(*ast.BinaryExpr); ok && b.Op == op {
+				rec(b.X)
+				rec(b.Y)
+				return
+			}
+			out = append(out, e)
+		}
+		rec(e)
+		return out
+	}
+	lenTest := func(e ast.Expr, negated bool) bool {
+		b, ok := e.(*ast.BinaryExpr)
+		return ok && exprText(fset, b.X) == lenOf && implies(b.Op, b.Y, negated)
+	}
+	terminates := func(b *ast.BlockStmt) bool {
+		if b == nil || len(b.List) == 0 {
+			return false
+		}
+		switch l := b.List[len(b.List)-1].(type) {
+		case *ast.ReturnStmt:
+			return true
+		case *ast.BranchStmt:
+			return l.Tok == token.CONTINUE || l.Tok == token.BREAK
+		case *ast.ExprStmt:
+			if c, ok := l.X.(*ast.CallExpr); ok {
+				if id, ok := c.Fun.(*ast.Ident); ok && id.Name == "panic" {
+					return true
+				}
+			}
+		}
+		return false
+	}
+	reassigned := func(from, to token.Pos) bool {
+		found := false
+		ast.Inspect(fn, func(n ast.Node) bool {
+			if as, ok := n.(*ast.AssignStmt); ok && as.Pos() > from && as.Pos() < to {
+				for _, l := range as.Lhs {
+					if exprText(fset, l) == st {
+						found = true
+					}
+				}
+			}
+			return true
+		})
+		return found
+	}
+	safe := false
+	var visit func(b *ast.BlockStmt)
+	visit = func(b *ast.BlockStmt) {
+		if b == nil || !(b.Pos() <= pos && end <= b.End()) {
+			return
+		}
+		for _, stmt := range b.List {
+			if is, ok := stmt.(*ast.IfStmt); ok {
+				if is.End() <= pos && is.Else == nil && terminates(is.Body) {
+					for _, d := range split(is.Cond, token.LOR) {
+						if lenTest(d, true) && !reassigned(is.End(), pos) {
+							safe = true
+						}
+					}
+				}
+				if is.Body.Pos() <= pos && end <= is.Body.End() {
+					for _, cj := range split(is.Cond, token.LAND) {
+						if lenTest(cj, false) && !reassigned(is.Body.Pos(), pos) {
+							safe = true
+						}
+					}
+				}
+			}
+			// descend into whatever statement encloses the use
+			ast.Inspect(stmt, func(n ast.Node) bool {
+				if inner, ok := n.(*ast.BlockStmt); ok && inner != b && inner.Pos() <= pos && end <= inner.End() {
+					visit(inner)
+					return false
+				}
+				return true
+			})
+		}
+	}
+	visit(fn)
+	return safe
+}
+
 func boundedIndex(fset *token.FileSet, fn *ast.BlockStmt, x *ast.IndexExpr) bool {
 	iv, ok := x.Index.(*ast.Ident)
 	if !ok {
@@ -555,10 +692,26 @@ func runInventoryCmd(args []string) {
 						if boundedIndex(fset, fd.Body, x) {
 							return true
 						}
+						// s[k] behind a test of len(s) that covers k
+						if lit, ok := x.Index.(*ast.BasicLit); ok && lit.Kind == token.INT {
+							if k, err := strconv.Atoi(lit.Value); err == nil && lengthGuarded(fset, fd.Body, x.X, x.Pos(), x.End(), k+1, "") {
+								return true
+							}
+						}
 						add(&panicSites, "index", x)
 					case *ast.SliceExpr:
 						if x.Low == nil && x.High == nil && x.Max == nil {
 							return true // s[:] cannot be out of range
+						}
+						// s[e:] behind a test of len(s) against the same e
+						if x.Low != nil && x.High == nil && x.Max == nil {
+							if lit, ok := x.Low.(*ast.BasicLit); ok && lit.Kind == token.INT {
+								if k, err := strconv.Atoi(lit.Value); err == nil && lengthGuarded(fset, fd.Body, x.X, x.Pos(), x.End(), k, "") {
+									return true
+								}
+							} else if lengthGuarded(fset, fd.Body, x.X, x.Pos(), x.End(), 0, exprText(fset, x.Low)) {
+								return true
+							}
 						}
 						add(&panicSites, "slice", x)
 					case *ast.BinaryExpr:
